@@ -62,6 +62,18 @@ Qed.
 (* the characterising lemma: what parse_header does once the head is
    syntactically accepted *)
 
+(* the statements that only set connection_close: split on their conditions,
+   whatever they are (robust against further such statements in the model) *)
+Ltac cc_cases :=
+  cbn [negb andb];
+  repeat match goal with
+  | |- context [if beqb ?v s_1_0 && ?x then _ else _] => destruct (beqb v s_1_0 && x)
+  | |- context [if negb (beqb ?v s_1_1) && ?x then _ else _] =>
+      destruct (negb (beqb v s_1_1) && x)
+  | |- context [if match hget ?h s_TRANSFER_ENCODING with Some _ => true | None => false end then _ else _] =>
+      destruct (hget h s_TRANSFER_ENCODING)
+  end.
+
 Lemma parse_header_framing a p hp index lines h1 cmd uri ver sc nl pa qu fr :
   chunked p = false -> body p = None ->
   find hp CRLF = Some index ->
@@ -96,11 +108,10 @@ Proof.
     cbn [headers set].
     set (encs := te_encodings (hget_default h1 s_TRANSFER_ENCODING [])).
     destruct (forallb (fun e => beqb e s_chunked) encs) eqn:Eall; cbn [negb].
-    2:{ destruct (beqb ver s_1_0 && negb (beqb (lower_latin1 (hget_default h1 s_CONNECTION [])) s_keep_alive));
-        cbn; auto. }
+    2:{ cc_cases; cbn; auto. }
     destruct encs as [|e0 encs'] eqn:Eencs.
     + (* no transfer coding: Content-Length decides *)
-      destruct (beqb ver s_1_0 && negb (beqb (lower_latin1 (hget_default h1 s_CONNECTION [])) s_keep_alive));
+      cc_cases;
       destruct (beqb (lower_latin1 (hget_default h1 s_CONNECTION [])) s_close);
       cbn -[matches gate_content_length int_max_str_digits dec_value lenN N.ltb hget_default];
       rewrite Hch;
@@ -113,16 +124,15 @@ Proof.
        cbn -[dec_value hget_default]; rewrite ?Hbody, ?Hch; repeat split; auto;
        apply N.ltb_ge in E3; lia).
     + destruct (length (e0 :: encs') =? 1)%nat eqn:Elen; cbn [negb].
-      2:{ destruct (beqb ver s_1_0 && negb (beqb (lower_latin1 (hget_default h1 s_CONNECTION [])) s_keep_alive));
-          cbn; auto. }
-      destruct (beqb ver s_1_0 && negb (beqb (lower_latin1 (hget_default h1 s_CONNECTION [])) s_keep_alive));
+      2:{ cc_cases; cbn; auto. }
+      cc_cases;
       destruct (beqb (lower_latin1 (hget_default h1 s_CONNECTION [])) s_close);
       destruct (hget (hpop h1 s_TRANSFER_ENCODING) s_CONTENT_LENGTH) eqn:Ecl;
       cbn; repeat split; auto; intros v Hv;
       try reflexivity.
       all: rewrite hget_hpop_other in Ecl by reflexivity; congruence.
   - (* any other version *)
-    destruct (beqb ver s_1_0 && negb (beqb (lower_latin1 (hget_default h1 s_CONNECTION [])) s_keep_alive));
+    cc_cases;
     cbn -[matches gate_content_length int_max_str_digits dec_value lenN N.ltb hget_default];
     rewrite Hch;
     cbn -[matches gate_content_length int_max_str_digits dec_value lenN N.ltb hget_default];
